@@ -50,6 +50,7 @@ TOKENS: dict[str, list[str]] = {
     "s_date": ["'2020-01-02'", "'1999-12-31'"], "s_time": ["'10:20:30'"], "s_dt": ["'2020-01-02T10:20:30'"],
     "s_uuid": ["'12345678-1234-5678-1234-567812345678'"], "s_b64": ["'YWJj'", "'AAEC'"], "s_badb64": ["'a'", "'abcde'"],
     "s_nonascii": ["'\\u00e9'", "'\\u4f60\\u597d'"], "s_ip4": ["'127.0.0.1'", "'10.0.0.1'"], "s_badre": ["'('", "'[a'"],
+    "d_huge": ["Decimal('1e28')", "Decimal('-3.5e40')"],
     "d0": ["Decimal(0)"], "d1": ["Decimal(1)"], "d_frac": ["Decimal('1.5')", "Decimal('2.25')"], "d_nan": ["Decimal('NaN')"],
     "fr1": ["Fraction(1)"], "fr_half": ["Fraction(1, 2)", "Fraction(3, 4)"],
     "cx1": ["complex(1, 0)"], "cx_j": ["1+2j"],
@@ -61,6 +62,14 @@ TOKENS: dict[str, list[str]] = {
     "uu": ["uuid.UUID('12345678-1234-5678-1234-567812345678')"], "pa": ["pathlib.Path('a/b')"],
     "ip": ["ipaddress.IPv4Address('127.0.0.1')", "ipaddress.IPv4Address('10.0.0.1')"], "pat": ["re.compile('a+')"],
     "s_ea": ["'ea'"], "i5": ["5"], "e_a": ["E.A"], "e_b": ["E.B"],
+    # the rest of the documented "exact lists": path-like classes, IP addresses / networks / interfaces
+    "ppp": ["pathlib.PurePosixPath('a/b')"], "pwp": ["pathlib.PureWindowsPath('a/b')"],
+    "s_ip6": ["'::1'", "'fe80::1'"], "s_net4": ["'10.0.0.0/30'", "'192.168.0.4/31'"], "s_net6": ["'fe80::/126'"],
+    "s_if4": ["'10.0.0.1/8'", "'192.168.1.1/16'"], "s_if6": ["'fe80::1/64'"],
+    "ip6": ["ipaddress.IPv6Address('::1')", "ipaddress.IPv6Address('fe80::1')"],
+    # (networks are ITERABLE - they yield their addresses - so the representatives are tiny networks)
+    "net4": ["ipaddress.IPv4Network('10.0.0.0/30')", "ipaddress.IPv4Network('192.168.0.4/31')"], "net6": ["ipaddress.IPv6Network('fe80::/126')"],
+    "if4": ["ipaddress.IPv4Interface('10.0.0.1/8')", "ipaddress.IPv4Interface('192.168.1.1/16')"], "if6": ["ipaddress.IPv6Interface('fe80::1/64')"],
     "obj": ["object()"],
 }
 
@@ -109,6 +118,10 @@ CTORS: dict[str, Any] = {
     "datetime": _str_only(dtm.datetime.fromisoformat),
     "timedelta": _td_seconds, "UUID": _str_only(uuid.UUID), "Path": _str_only(pathlib.Path),
     "IPv4Address": _str_only(ipaddress.IPv4Address), "re": _str_only(re.compile),
+    "PurePath": _str_only(pathlib.PurePath), "PurePosixPath": _str_only(pathlib.PurePosixPath), "PosixPath": _str_only(pathlib.PosixPath),
+    "PureWindowsPath": _str_only(pathlib.PureWindowsPath),
+    "IPv6Address": _str_only(ipaddress.IPv6Address), "IPv4Network": _str_only(ipaddress.IPv4Network), "IPv6Network": _str_only(ipaddress.IPv6Network),
+    "IPv4Interface": _str_only(ipaddress.IPv4Interface), "IPv6Interface": _str_only(ipaddress.IPv6Interface),
     "id": lambda x: x,
 }
 
@@ -121,17 +134,26 @@ DUMPS: dict[str, Any] = {
     "date": lambda x: x.isoformat(), "time": lambda x: x.isoformat(), "datetime": lambda x: x.isoformat(),
     "timedelta": lambda x: x.total_seconds(), "UUID": str, "IPv4Address": str, "Path": lambda x: x.__fspath__(),
     "Pattern": lambda x: x.pattern,
+    "object": lambda x: x, "LiteralString": lambda x: x, "ByteString": lambda x: base64.b64encode(x).decode("ascii"),
+    "PurePath": lambda x: x.__fspath__(), "PurePosixPath": lambda x: x.__fspath__(), "PosixPath": lambda x: x.__fspath__(),
+    "PureWindowsPath": lambda x: x.__fspath__(), "PathLike": lambda x: x.__fspath__(),
+    "IPv6Address": str, "IPv4Network": str, "IPv6Network": str, "IPv4Interface": str, "IPv6Interface": str,
 }
 # python type (name) of the values of each scalar kind
 VALUE_PYTYPE = {"int": "int", "float": "float", "str": "str", "bool": "bool", "None": "NoneType", "Decimal": "Decimal",
                 "Fraction": "Fraction", "complex": "complex", "bytes": "bytes", "bytearray": "bytearray", "date": "date",
                 "time": "time", "datetime": "datetime", "timedelta": "timedelta", "UUID": "UUID", "IPv4Address": "IPv4Address",
-                "Path": "PosixPath", "Pattern": "Pattern"}
+                "Path": "PosixPath", "Pattern": "Pattern",
+                "LiteralString": "str", "ByteString": "bytes", "PurePath": "PurePosixPath", "PurePosixPath": "PurePosixPath", "PosixPath": "PosixPath",
+                "PureWindowsPath": "PureWindowsPath", "PathLike": "PosixPath", "IPv6Address": "IPv6Address", "IPv4Network": "IPv4Network",
+                "IPv6Network": "IPv6Network", "IPv4Interface": "IPv4Interface", "IPv6Interface": "IPv6Interface"}
 # which constructor (CTORS key) the loader of a scalar kind applies
 KIND_CTOR = {"int": "int", "float": "float", "str": "str", "bool": "bool", "Decimal": "Decimal", "Fraction": "Fraction",
              "complex": "complex", "None": "id", "Any": "id", "bytes": "b64", "bytearray": "b64ba", "date": "date", "time": "time",
              "datetime": "datetime", "timedelta": "timedelta", "UUID": "UUID", "Path": "Path", "IPv4Address": "IPv4Address",
-             "Pattern": "re"}
+             "Pattern": "re", "object": "id", "LiteralString": "str", "ByteString": "b64", "PurePath": "PurePath", "PurePosixPath": "PurePosixPath",
+             "PosixPath": "PosixPath", "PureWindowsPath": "PureWindowsPath", "PathLike": "Path", "IPv6Address": "IPv6Address",
+             "IPv4Network": "IPv4Network", "IPv6Network": "IPv6Network", "IPv4Interface": "IPv4Interface", "IPv6Interface": "IPv6Interface"}
 
 
 def typed_same(a: Any, b: Any) -> bool:
@@ -163,7 +185,7 @@ def dump_table() -> dict[str, dict[str, str]]:
     """DumpTok[kind][value token] = token of the documented outer form ('?' = outside the universe)"""
     out: dict[str, dict[str, str]] = {}
     for kind, f in DUMPS.items():
-        if kind == "Any":
+        if kind in ("Any", "object"):
             continue
         row = {}
         for t in TOKENS:
@@ -272,6 +294,9 @@ def axioms_tla() -> str:
         "EqClass == " + fn({t: str(eqc[t]) for t in toks}),
         "Hashable == " + fn({t: b(hashable(rep(t))) for t in toks}),
         "Ctors == {" + ", ".join(f'"{c}"' for c in CTORS) + "}",
+        "\\* tokens that are iterable objects although they are neither containers of the data universe nor str / bytes-like",
+        "OtherIterableAtoms == {" + ", ".join(f'"{t}"' for t in toks if isinstance(rep(t), collections.abc.Iterable)
+                                             and not isinstance(rep(t), (str, bytes, bytearray))) + "}",
     ]
     okset = {c: [t for t in toks if ctor_ok(c, rep(t))] for c in CTORS}
     lines.append("CtorAccepts == [c \\in Ctors |-> CASE " + " [] ".join(
